@@ -4,6 +4,7 @@
 use std::fmt::Write as _;
 
 include!("../../../common/utf8.rs");
+include!("../../../common/decimal_model.rs");
 
 const EMIN: i64 = -300;
 const EMAX: i64 = 300;
@@ -120,6 +121,51 @@ fn main() {
     if bad != 0 {
         eprintln!("utf8 model disagrees with core::str::from_utf8 on {bad} strings");
         ok = false;
+    }
+    // rust_decimal models vs the real crate, inside (and beyond) the C16 harness bound
+    {
+        let mut bad = 0u64;
+        let mut n = 0u64;
+        let mut seed = 0x2545F4914F6CDD1Du64;
+        let factor = lef21::LefDecimal::from(10_000u32);
+        let same = |x: lef21::LefDecimal, y: lef21::LefDecimal| x.mantissa() == y.mantissa() && x.scale() == y.scale() && x.is_sign_negative() == y.is_sign_negative() || (x.mantissa() == 0 && y.mantissa() == 0 && x.scale() == y.scale());
+        for scale in 0u32..=8 {
+            let mut vals: Vec<i64> = vec![0, 1, -1, 9, 10, -10, 99, 100, 150, -150, 1 << 20, -(1 << 20), (1 << 20) - 1, 999_999, 1_000_000, -1_000_001];
+            for _ in 0..250_000 {
+                seed ^= seed << 13;
+                seed ^= seed >> 7;
+                seed ^= seed << 17;
+                vals.push(((seed >> 20) as i64 % (1 << 22)) - (1 << 21));
+            }
+            for m in vals {
+                let d = lef21::LefDecimal::new(m, scale);
+                let prod = &d * factor;
+                n += 3;
+                // comparisons: the product against its own integral part, a neighbour and a differently scaled equal
+                let others = [prod.trunc(), prod + lef21::LefDecimal::new(1, scale.min(6)), lef21::LefDecimal::from_i128_with_scale(prod.mantissa() * 10, prod.scale() + 1)];
+                for o in others {
+                    n += 2;
+                    if prod.cmp(&o) != cmp_model(&prod, &o) || (prod == o) != eq_model(&prod, &o) {
+                        bad += 1;
+                        if bad <= 8 {
+                            eprintln!("decimal model mismatch: cmp/eq of {prod} and {o}");
+                        }
+                    }
+                }
+                for (what, real, model) in [("mul", prod, mul_model(&d, factor)), ("trunc", prod.trunc(), trunc_model(&prod)), ("fract", prod.fract(), fract_model(&prod))] {
+                    if !same(real, model) {
+                        bad += 1;
+                        if bad <= 8 {
+                            eprintln!("decimal model mismatch: {what} of {m}e-{scale}: real ({}, {}) model ({}, {})", real.mantissa(), real.scale(), model.mantissa(), model.scale());
+                        }
+                    }
+                }
+            }
+        }
+        if bad != 0 {
+            eprintln!("rust_decimal models disagree with the real crate on {bad} of {n} operations");
+            ok = false;
+        }
     }
     let mut s = String::new();
     writeln!(s, "// generated by l21v-tablegen from the platform libm; do not edit").unwrap();
